@@ -29,6 +29,8 @@ def callNamed : String → Option (Option Int → Option (List Cmd × Val))
   | "resetopt" => some (fun s => resetCall s)
   | "constructopt" => some (fun s => constructCall s)
   | "resetopttruthy" => some (fun s => resetCallTruthy s)
+  | "marlresetopt" => some (fun s => marlResetCall s)
+  | "marlconstructopt" => some (fun s => marlConstructCall s)
   | _ => none
 
 def showVals (vs : List Val) : String := ",".intercalate (vs.map toString)
